@@ -37,7 +37,7 @@ RULE = ("ALL ordered pairs of catalogue types of different families as a type ch
         "the base (random instance per kind); each case compares db(A) with m(A) under the 4 compare_type x compare_server_default "
         "settings. every case is non-trivial (a real change is applied); distinct by the encoded (A, m). "
         "Every fourth base carries ANONYMOUS unique constraints (Column(unique=True) / unnamed UniqueConstraint, reflected with name None) and gets every index / unique change twice (outside the proved class: judged by decider and exact correspondence). "
-        "An include_schemas=True slice: tables of the same name in main and in an ATTACHed database with different indexes, every table-level kind of change on one of the twins. "
+        "An include_schemas=True slice: tables of the same name in main and in an ATTACHed database with different indexes, every table-level kind of change on one of the twins; in every second such case the attached schema also holds a table NAMED alembic_version (only in version_table_schema is that name alembic's own), as bystander or as the changed table. "
         "Then lists of 2-7 changes at once on random bases in five shapes: cons_table (2-4 index / unique changes inside one table that carries anonymous unique constraints), same_table (2-5 changes inside one table, half with a removed "
         "column together with at least as many added ones), drop_target (a table removed together with every foreign key pointing at it "
         "from tables that stay, plus up to 2 more changes), add_target (a table added together with a foreign key to it from a table that "
@@ -94,6 +94,14 @@ def _schema_cases(rnd, nbase):
             while len(tw["cons"]) < 2 and S.add_cons(rnd, tw, code * 10 + 5 + len(tw["cons"])): pass
             twins += [t["name"], code]
             A.append(tw)
+        if k % 2 == 1:
+            # a bystander in the attached schema that is NAMED like alembic's version table (a leftover of per-schema versioning):
+            # only in version_table_schema is that name alembic's own; here it is a table like any other and must stay out of the diff
+            vt = S.gen_table(rnd, 100 + S.VT_LOCAL, (100 + S.VT_LOCAL) * 10)
+            for c in vt["cols"]: c[5] = None if (c[5] is not None and c[5][0] == "expr") else c[5]
+            A.append(vt)
+            if k % 4 == 1:
+                twins += [100 + S.VT_LOCAL]
         for kind in kinds:
             m = S.gen_mutation(rnd, A, kind, rnd.choice(twins))
             if m is not None:
